@@ -167,7 +167,7 @@ Section Refinement.
           abs (snd (interp p w)) = snd (interp_s p (abs w))
           /\ Forall nonempty (w_chunks S (snd (interp p w)))).
   Proof.
-    induction p as [v st|e st|st k IH|st n k IH|data k IH|st k IH|st k IH]; intros w Hne.
+    induction p as [v st|e st|st k IH|st n k IH|data k IH|st k IH|st k IH|g k IH]; intros w Hne.
     - simpl. auto.
     - simpl. auto.
     - (* RdLine *)
@@ -264,6 +264,10 @@ Section Refinement.
         { unfold Transport.abs, w1. simpl. rewrite Hcat. reflexivity. }
         rewrite Habs in IH. exact IH.
       + simpl. split; [reflexivity|]. intros _. split; [reflexivity|exact Hne].
+    - (* Mark *)
+      cbn [Transport.interp Transport.interp_s].
+      match goal with |- context [Transport.interp _ _ _ _ _ k ?W] => set (w1 := W) end.
+      specialize (IH w1 Hne). exact IH.
   Qed.
 End Refinement.
 
